@@ -178,7 +178,7 @@ def assemble(repo=REPO, mutate_hook=None, only_units=None, canary=False):
         prelude(unit + '_')
         cur_emit = None
         for fs in ufns:
-            g = genmod.build_fn(fs, repo, eff, tkeys.keys())
+            g = genmod.build_fn(fs, repo, eff, tkeys.keys(), canary=canary and not fs.external)
             G.fns[fs.fid] = g
             emit = fs.emit if fs.emit is not None else fs.scope
             if emit == 'free':
@@ -197,13 +197,6 @@ def assemble(repo=REPO, mutate_hook=None, only_units=None, canary=False):
             first = len(out) + 1
             for (l, origin) in g.out_lines:
                 out.append((l, fs.fid, origin))
-            if canary and not fs.external:
-                # replace the final `}` by a failing assertion + `}`
-                j = len(out) - 1
-                assert out[j][0].strip().endswith('}')
-                body = out[j][0]
-                k = body.rindex('}')
-                out[j] = (body[:k] + ' #[allow(unreachable_code)] { assert(false); } }' , fs.fid, ('canary', fs.fid))
             G.fn_ranges.append((first, len(out), fs.fid))
             for o in g.obligations:
                 o = dict(o)
@@ -336,7 +329,7 @@ def classify(G, res):
                 clause_oid = o[1]
             elif o[0] == 'req' and req_oid is None:
                 req_oid = o[1]
-            elif o[0] == 'canary':
+            elif o[0] == 'canary' and 'assertion failed' in msg:
                 clause_oid = o[1] + '/canary'
             if o[0] == 'src' and s['fid'] and body_fid is None:
                 body_fid = s['fid']
